@@ -109,7 +109,7 @@ class Checker:
                 for cons in pe.cons_sets:
                     for op in cons.options:
                         branch = [
-                            not not op.value,
+                            op.value is not None,
                             op.tag is not None,
                             op.fn is not None,
                         ].count(True)
